@@ -1,7 +1,16 @@
 package c05
 
 import (
+	"encoding/binary"
+	"os"
+	"path/filepath"
 	"sort"
+	"strconv"
+	"strings"
+	"sync"
+	"unicode"
+
+	ot "github.com/go-text/typesetting/font/opentype"
 
 	"pgregory.net/rapid"
 
@@ -42,30 +51,127 @@ func stratum(tr corpus.Traits) string {
 	}
 }
 
-// allFontRefs lists (file, face index) of every corpus file, reading only table directories.
-func allFontRefs() (refs []fontRef, strata map[string][]int) {
+// fontRef richness: number of GSUB+GPOS lookups and of contextual / chaining lookups, read from
+// the raw tables (lookup headers only; extension lookups are followed).
+type richness struct {
+	lookups, contextual int
+	complexScript       bool
+}
+
+func (r richness) score() int {
+	s := r.lookups + 4*r.contextual
+	if r.complexScript {
+		s += 20
+	}
+	return s
+}
+
+// rich: enough lookups and at least one contextual one (84 faces of the pinned corpus).
+func (r richness) rich() bool { return r.contextual >= 1 && r.lookups >= 10 }
+
+func be16(b []byte, o int) int {
+	if o < 0 || o+2 > len(b) {
+		return 0
+	}
+	return int(binary.BigEndian.Uint16(b[o:]))
+}
+
+var simpleScriptTags = map[string]bool{"DFLT": true, "dflt": true, "latn": true, "grek": true, "cyrl": true, "hani": true, "kana": true, "armn": true, "geor": true, "math": true}
+
+func layoutStats(b []byte, isGPOS bool, r *richness) {
+	if len(b) < 10 {
+		return
+	}
+	sl, ll := be16(b, 4), be16(b, 8)
+	for i, n := 0, be16(b, sl); i < n; i++ {
+		if o := sl + 2 + 6*i; o+4 <= len(b) && !simpleScriptTags[string(b[o:o+4])] {
+			r.complexScript = true
+		}
+	}
+	n := be16(b, ll)
+	r.lookups += n
+	ext, ctxA, ctxB := 7, 5, 6
+	if isGPOS {
+		ext, ctxA, ctxB = 9, 7, 8
+	}
+	for i := 0; i < n; i++ {
+		lo := ll + be16(b, ll+2+2*i)
+		typ := be16(b, lo)
+		if typ == ext && be16(b, lo+4) > 0 {
+			typ = be16(b, lo+be16(b, lo+6)+2)
+		}
+		if typ == ctxA || typ == ctxB {
+			r.contextual++
+		}
+	}
+}
+
+// allFontRefs lists (file, face index) of every corpus file with its stratum and layout richness,
+// reading only table directories and the lookup headers of GSUB/GPOS.
+func allFontRefs() (refs []fontRef, strata map[string][]int, rich []richness) {
 	strata = map[string][]int{}
 	for _, rel := range corpus.Files() {
 		lds, err := corpus.Loaders(rel)
 		if err != nil {
 			continue
 		}
-		for i := range lds {
-			tr := corpus.TraitsOf(rel, i)
+		for i, ld := range lds {
+			has := func(s string) bool { return ld.HasTable(ot.MustNewTag(s)) }
+			tr := corpus.Traits{
+				GSUB: has("GSUB"), GPOS: has("GPOS"), Morx: has("morx") || has("mort"), Kerx: has("kerx"), Kern: has("kern"),
+				Fvar: has("fvar"), CFF: has("CFF "), CFF2: has("CFF2"), Glyf: has("glyf"),
+			}
+			var r richness
+			for _, tg := range []string{"GSUB", "GPOS"} {
+				if raw, err := ld.RawTable(ot.MustNewTag(tg)); err == nil {
+					layoutStats(raw, tg == "GPOS", &r)
+				}
+			}
 			strata[stratum(tr)] = append(strata[stratum(tr)], len(refs))
 			refs = append(refs, fontRef{rel, i})
+			rich = append(rich, r)
 		}
 	}
-	return refs, strata
+	return refs, strata, rich
 }
 
-// pickFonts draws the stratified font sample of this shard: n fonts, round-robin over the strata,
-// order inside a stratum shuffled by (VERIF_SEED); shards take disjoint slices of each stratum.
-// Fonts the port cannot load are skipped (C09 owns loading).
+// pickFonts draws the font sample of this shard: n fonts.
+//
+// Half of the slots go to the "rich" tier (faces with >= 10 lookups and >= 1 contextual/chaining
+// lookup, ordered by score, at most two faces per collection file): with 16 shards x 6 slots the
+// whole tier (Amiri, the Noto Nastaliq Urdu copies, Noto Indic fonts, Commissioner, Estedad, ...)
+// is part of (nearly) every quick run; only the assignment to shards rotates with VERIF_SEED.
+// The other half is the stratified sample as before: round-robin over the strata, order inside a
+// stratum shuffled by VERIF_SEED, shards take disjoint slices. Fonts the port cannot load are
+// skipped (C09 owns loading).
 func pickFonts(n int) []*fontEntry {
-	refs, strata := allFontRefs()
+	refs, strata, rich := allFontRefs()
 	shard, nshards := ev.Shard()
 	rnd := ev.NewRand(uint64(ev.Seed())*0x9E3779B1 + 77)
+
+	var richIdx []int
+	perFile := map[string]int{}
+	all := make([]int, len(refs))
+	for i := range all {
+		all[i] = i
+	}
+	sort.SliceStable(all, func(a, b int) bool { return rich[all[a]].score() > rich[all[b]].score() })
+	for _, i := range all {
+		if rich[i].rich() && perFile[refs[i].Rel] < 2 {
+			perFile[refs[i].Rel]++
+			richIdx = append(richIdx, i)
+		}
+	}
+	taken := map[int]bool{}
+	var chosen []int
+	if len(richIdx) > 0 {
+		rot := rnd.Intn(nshards)
+		for k := (shard + rot) % nshards; k < len(richIdx) && len(chosen) < n/2; k += nshards {
+			chosen = append(chosen, richIdx[k])
+			taken[richIdx[k]] = true
+		}
+	}
+
 	names := make([]string, 0, len(strata))
 	for k := range strata {
 		names = append(names, k)
@@ -91,9 +197,17 @@ func pickFonts(n int) []*fontEntry {
 			}
 		}
 	}
+	for k := shard; k < len(order); k += nshards {
+		if !taken[order[k]] {
+			chosen = append(chosen, order[k])
+		}
+	}
 	var out []*fontEntry
-	for k := shard; k < len(order) && len(out) < n; k += nshards {
-		r := refs[order[k]]
+	for _, i := range chosen {
+		if len(out) >= n {
+			break
+		}
+		r := refs[i]
 		fe, err := loadFont(r.Rel, r.Index)
 		if err != nil {
 			ev.Label("font_port_rejects")
@@ -105,9 +219,88 @@ func pickFonts(n int) []*fontEntry {
 			ev.Note("font excluded, loaders differ: %s#%d: %s", r.Rel, r.Index, fe.note)
 			continue
 		}
+		fe.rich = rich[i]
+		if rich[i].rich() {
+			ev.Label("font_rich_tier")
+		}
 		out = append(out, fe)
 	}
 	return out
+}
+
+// fontWeights: how often a font of the shard is drawn relative to the others: fonts with many
+// (contextual) lookups have more behaviour to compare.
+func fontWeights(fonts []*fontEntry) (cum []int) {
+	total := 0
+	for _, fe := range fonts {
+		w := 2
+		if fe.rich.rich() {
+			w += 2 + fe.rich.score()/40
+			if w > 8 {
+				w = 8
+			}
+		}
+		total += w
+		cum = append(cum, total)
+	}
+	return cum
+}
+
+// ---- upstream test strings of the corpus, by font ----
+
+var (
+	upstreamOnce  sync.Once
+	upstreamTexts map[string][][]rune
+)
+
+// upstreamFor returns the texts the upstream expectation files (harfbuzz_reference/*/tests/*.tests,
+// lines "font;options;text;expected") shape with this font: sequences the font's own lookups
+// are known to react to.
+func upstreamFor(rel string) [][]rune {
+	upstreamOnce.Do(func() {
+		upstreamTexts = map[string][][]rune{}
+		root := corpus.Dir()
+		files, _ := filepath.Glob(filepath.Join(root, "harfbuzz", "harfbuzz_reference", "*", "tests", "*.tests"))
+		sort.Strings(files)
+		for _, f := range files {
+			b, err := os.ReadFile(f)
+			if err != nil {
+				continue
+			}
+			for _, line := range strings.Split(string(b), "\n") {
+				if strings.HasPrefix(line, "#") {
+					continue
+				}
+				parts := strings.Split(line, ";")
+				if len(parts) < 4 {
+					continue
+				}
+				font := parts[0]
+				if i := strings.IndexByte(font, '@'); i >= 0 {
+					font = font[:i]
+				}
+				rel, err := filepath.Rel(root, filepath.Join(filepath.Dir(f), font))
+				if err != nil {
+					continue
+				}
+				var text []rune
+				ok := true
+				for _, u := range strings.Split(parts[2], ",") {
+					u = strings.TrimPrefix(strings.TrimSpace(u), "U+")
+					v, err := strconv.ParseInt(u, 16, 32)
+					if err != nil || v < 0 || v > 0x10FFFF || v >= 0xD800 && v <= 0xDFFF {
+						ok = false
+						break
+					}
+					text = append(text, rune(v))
+				}
+				if ok && len(text) > 0 && len(text) <= 48 && len(upstreamTexts[rel]) < 400 {
+					upstreamTexts[rel] = append(upstreamTexts[rel], text)
+				}
+			}
+		}
+	})
+	return upstreamTexts[rel]
 }
 
 // ---- case generator ----
@@ -193,15 +386,118 @@ func genVars(t *rapid.T, fe *fontEntry) []Var {
 	return out
 }
 
-func genCase(t *rapid.T, fonts []*fontEntry) (*fontEntry, *Case) {
-	fe := fonts[rapid.IntRange(0, len(fonts)-1).Draw(t, "font")]
+// joiners: default ignorables and joiners that lookups have to step over (or not).
+var joiners = []rune{0x200D, 0x200D, 0x200D, 0x200D, 0x200C, 0x200C, 0x034F, 0xFE00, 0xFE0F, 0xFE01, 0x180B, 0x2060, 0x00AD, 0x061C, 0x200B, 0x200E, 0x0640, 0x25CC}
+
+// fallbackSpaces: the spaces the shaper synthesises when the font lacks them.
+var fallbackSpaces = []rune{0x2007, 0x2007, 0x2008, 0x2009, 0x2002, 0x2003, 0x2004, 0x2005, 0x2006, 0x200A, 0x202F, 0x205F, 0x3000, 0x00A0, 0x2000, 0x2001}
+
+func isMarkRune(r rune) bool { return unicode.In(r, unicode.Mn, unicode.Mc, unicode.Me) }
+
+// genJoinerText builds text out of units the font's own lookups react to — a text of the upstream
+// expectation files for this font, a word from an alphabet of the font's scripts, a snippet, a
+// window of the font's cmap — and inserts joiners, default ignorables, variation selectors and
+// marks at inner positions of the units (between letters), so that contextual / chaining /
+// ligature lookups have to step over them. Units are separated by a space, a fallback space or
+// nothing.
+func genJoinerText(t *rapid.T, fe *fontEntry, maxLen int) []rune {
+	scripts := fe.scripts
+	if len(scripts) == 0 {
+		scripts = textgen.ScriptNames
+	}
+	var out []rune
+	nunits := rapid.IntRange(1, 4).Draw(t, "nunits")
+	for u := 0; u < nunits && len(out) < maxLen; u++ {
+		var unit []rune
+		var marks []rune
+		src := rapid.IntRange(0, 9).Draw(t, "unitSource")
+		alphabet := textgen.Alphabets[rapid.SampledFrom(scripts).Draw(t, "unitScript")]
+		for _, r := range alphabet {
+			if isMarkRune(r) {
+				marks = append(marks, r)
+			}
+		}
+		switch {
+		case src < 4 && len(fe.upstream) > 0:
+			unit = append(unit, rapid.SampledFrom(fe.upstream).Draw(t, "upstreamText")...)
+			if len(unit) > 12 { // a window of a long test string
+				o := rapid.IntRange(0, len(unit)-12).Draw(t, "upstreamOffset")
+				unit = unit[o : o+rapid.IntRange(2, 12).Draw(t, "upstreamLen")]
+			}
+		case src < 7:
+			n := rapid.IntRange(2, 6).Draw(t, "wordLen")
+			for i := 0; i < n; i++ {
+				unit = append(unit, rapid.SampledFrom(alphabet).Draw(t, "wordRune"))
+			}
+		case src < 8:
+			unit = append(unit, rapid.SampledFrom(textgen.Snippets).Draw(t, "snippet")...)
+		default:
+			if len(fe.pool) > 0 {
+				c := rapid.IntRange(0, len(fe.pool)-1).Draw(t, "poolCentre")
+				lo, hi := c-20, c+20
+				if lo < 0 {
+					lo = 0
+				}
+				if hi > len(fe.pool) {
+					hi = len(fe.pool)
+				}
+				n := rapid.IntRange(2, 6).Draw(t, "poolWordLen")
+				for i := 0; i < n; i++ {
+					unit = append(unit, rapid.SampledFrom(fe.pool[lo:hi]).Draw(t, "poolRune"))
+				}
+			} else {
+				unit = append(unit, rapid.SampledFrom(alphabet).Draw(t, "wordRune1"), rapid.SampledFrom(alphabet).Draw(t, "wordRune2"))
+			}
+		}
+		// insertions at inner positions
+		if len(unit) >= 2 {
+			nins := rapid.SampledFrom([]int{0, 1, 1, 1, 2, 3}).Draw(t, "ninserts")
+			for k := 0; k < nins; k++ {
+				pos := rapid.IntRange(1, len(unit)-1).Draw(t, "insertPos")
+				var ins rune
+				if len(marks) > 0 && rapid.IntRange(0, 3).Draw(t, "insertMark") == 0 {
+					ins = rapid.SampledFrom(marks).Draw(t, "mark")
+				} else {
+					ins = rapid.SampledFrom(joiners).Draw(t, "joiner")
+				}
+				unit = append(unit[:pos], append([]rune{ins}, unit[pos:]...)...)
+			}
+		}
+		out = append(out, unit...)
+		switch rapid.IntRange(0, 9).Draw(t, "separator") {
+		case 0, 1, 2, 3:
+			out = append(out, ' ')
+		case 4, 5:
+			out = append(out, rapid.SampledFrom(fallbackSpaces).Draw(t, "fallbackSpace"))
+		case 6:
+			out = append(out, rapid.SampledFrom([]rune{'1', '2', '.', ',', '-', 0x060C, 0x0964, '/', 0x2044}).Draw(t, "punct"))
+		}
+	}
+	if len(out) > maxLen {
+		out = out[:maxLen]
+	}
+	return out
+}
+
+func genCase(t *rapid.T, fonts []*fontEntry, cum []int) (*fontEntry, *Case) {
+	w := rapid.IntRange(0, cum[len(cum)-1]-1).Draw(t, "font")
+	fe := fonts[sort.SearchInts(cum, w+1)]
 	c := &Case{Font: fe.rel, Index: fe.index}
 	opts := textgen.Opts{MaxLen: ev.Scale(32, 64), FontPool: fe.pool, Hostile: 10, NoInvalid: true}
 	// mostly the scripts the font is made for; sometimes any (fallback paths, .notdef)
 	if len(fe.scripts) > 0 && rapid.IntRange(0, 9).Draw(t, "ownScripts") < 8 {
 		opts.Scripts = fe.scripts
 	}
-	text := textgen.Text(t, opts)
+	var text []rune
+	joinerShare := 3 // of 10
+	if fe.rich.complexScript || fe.rich.rich() || len(fe.upstream) > 0 {
+		joinerShare = 5
+	}
+	if rapid.IntRange(0, 9).Draw(t, "textMode") < joinerShare {
+		text = genJoinerText(t, fe, opts.MaxLen)
+	} else {
+		text = textgen.Text(t, opts)
+	}
 	c.Text = make([]int, len(text))
 	for i, r := range text {
 		c.Text[i] = int(r)
@@ -242,5 +538,21 @@ func genCase(t *rapid.T, fonts []*fontEntry) (*fontEntry, *Case) {
 	c.Vars = genVars(t, fe)
 	c.Cluster = rapid.SampledFrom([]int{0, 0, 0, 1, 2}).Draw(t, "clusterLevel")
 	c.Flags = rapid.SampledFrom([]int{3, 3, 3, 3, 0, 1, 2, 3 | 4, 3 | 8, 3 | 4 | 8, 4, 8, 1 | 8, 2 | 4}).Draw(t, "flags")
+	// invisible / not-found glyphs: mostly unset; otherwise a valid glyph id of the font
+	if fe.nglyphs > 1 {
+		if rapid.IntRange(0, 7).Draw(t, "setInvisible") == 0 {
+			c.Invisible = rapid.IntRange(1, minInt(fe.nglyphs-1, 0xFFFF)).Draw(t, "invisible")
+		}
+		if rapid.IntRange(0, 7).Draw(t, "setNotFound") == 0 {
+			c.NotFound = rapid.IntRange(1, minInt(fe.nglyphs-1, 0xFFFF)).Draw(t, "notFound")
+		}
+	}
 	return fe, c
+}
+
+func minInt(a, b int) int {
+	if a < b {
+		return a
+	}
+	return b
 }
